@@ -178,12 +178,14 @@ def variants(rng, count):
     coefs = [1, 2, 3, -1, F(1, 2), -2]
     probs = [F(1, 2), F(1, 3), F(1, 4), F(2, 3)]
     inits = [0, 1, 2, -1, F(1, 2), 3, 5]
+    cnt = {"sq": 0, "solv": 0, "mk": 0}
 
     def sq(i):
         a = rng.choice([2, 3, F(1, 2), -1, 1])
         c, d = rng.choice(coefs), rng.choice(coefs)
         e = rng.choice([1, 2, -1])
-        zkind = rng.choice(["toggle", "bern", "choice", "walk", "choice-late", "toggle-late", "bern-late", "walk2"])
+        zkind = ["walk", "choice-late", "toggle", "bern-late", "walk2", "bern", "toggle-late", "choice"][cnt["sq"] % 8]
+        cnt["sq"] += 1
         zpow = 2 if zkind in ("walk", "walk2") and rng.random() < 0.7 else 1
         zt = "z" if zpow == 1 else "z**2"
         xs = f"{qs(a)}*x + {qs(e)}*y**2 + {qs(c)}*{zt}"
@@ -223,7 +225,8 @@ def variants(rng, count):
         i0 = rng.choice([[1, 1, 2], [1, 2, 5], [2, 5, 29], [1, 1, 1], [2, 1, 3]])
         mt0 = SIM(["a", "b", "c"], ["a", "3*a*b - c", "b"])
         mt1 = SIM(["a", "b", "c"], ["b", "3*b*c - a", "c"])
-        kind = rng.choice(["random", "toggle", "choice"])
+        kind = ["choice", "toggle", "random"][cnt["mk"] % 3]
+        cnt["mk"] += 1
         init = [SIM(["a", "b", "c"], i0)]
         if kind == "random":
             body = [DRAW("d", ("bern", P.const(p))), ("if", [(EQ("d", 1), [mt0])], [mt1])]
@@ -244,7 +247,8 @@ def variants(rng, count):
 
     def solv(i):
         p = rng.choice(probs)
-        kind = rng.choice(["walk-square", "bern-product", "toggle-square", "two-walks"])
+        kind = ["walk-square", "toggle-square", "bern-product", "two-walks"][cnt["solv"] % 4]
+        cnt["solv"] += 1
         if kind == "walk-square":
             body = [CH("z", [(p, "z + 1"), (1 - p, "z - 1")]), A("w", f"w + {qs(rng.choice(coefs))}*z**2")]
             init = [A("z", rng.choice(inits)), A("w", 0)]
@@ -263,6 +267,35 @@ def variants(rng, count):
     for i in range(count):
         out.append(makers[i % len(makers)](i))
     return out
+
+
+def branching(stmts):
+    """upper bound of the number of random outcomes of one pass over the statements"""
+    b = 1
+    for s in stmts:
+        if s[0] == "assign":
+            b *= rhs_arity(s[2])
+        elif s[0] == "simult":
+            for _, r in s[1]:
+                b *= rhs_arity(r)
+        else:
+            b *= max([branching(bb) for _, bb in s[1]] + [branching(s[2]) if s[2] else 1])
+    return b
+
+
+def rhs_arity(r):
+    if r[0] == "choice":
+        return len(r[1])
+    d = r[1]
+    return {"bern": 2, "cat": len(d[1]) if d[0] == "cat" else 1, "unif": (d[2] - d[1] + 1) if d[0] == "unif" else 1}.get(d[0], 1)
+
+
+def oracle_depth(p, nmax, budget=300):
+    b = branching(p["body"])
+    n = nmax
+    while n > 3 and b ** n > budget:
+        n -= 1
+    return n
 
 
 # ---- points ----------------------------------------------------------------------------------
@@ -417,9 +450,10 @@ def synth_case(flat, pt, inst, cm):
     body += f"Definition Q0 : poly := {poly_coq(inst['Q'])}.\n"
     body += f"Definition items0 := {P.lst(items)}.\n"
     body += f"Definition f0 : epolyQ := {epoly_coq(inst['f_epoly'])}.\n"
-    body += (f"Eval vm_compute in [check_synth_any {cm} fp0 T0 Q0 {P.lst([P.q_coq(F(k)) for k in ks])} items0 f0; "
-             f"check_types fp0 T0; forallb (check_item {cm} fp0 T0) items0].\n")
-    return body
+    body += f"Definition fsp0 : list Qc := {P.lst([P.q_coq(F(x)) for x in inst.get('f_special', [])])}.\n"
+    main = body + f"Eval vm_compute in [check_synth_any {cm} fp0 T0 Q0 {P.lst([P.q_coq(F(k)) for k in ks])} items0 fsp0 f0].\n"
+    diag = body + f"Eval vm_compute in [check_types fp0 T0; forallb (check_item {cm} fp0 T0) items0].\n"
+    return main, diag
 
 
 def s_types(flat, sdump):
@@ -456,13 +490,14 @@ def sim_case(flat, pt, sdump, subs, sysd, Qd, k, sv, cm):
     # leave their value sets), then with the original value sets (needed when powers were reduced)
     if sv is not None:
         body += f"Definition Q0 : poly := {poly_coq(Qd)}.\n"
-        body += (f'Eval vm_compute in [check_sim {cm} fpO TO fpS [] Q0 "{sv}" {P.q_coq(F(k))} ms0 A0 v0 || '
-                 f'check_sim {cm} fpO TO fpS TS Q0 "{sv}" {P.q_coq(F(k))} ms0 A0 v0; ')
+        main = body + (f'Eval vm_compute in [check_sim {cm} fpO TO fpS [] Q0 "{sv}" {P.q_coq(F(k))} ms0 A0 v0 || '
+                       f'check_sim {cm} fpO TO fpS TS Q0 "{sv}" {P.q_coq(F(k))} ms0 A0 v0].\n')
     else:
-        body += f"Eval vm_compute in [check_sys_agree {cm} fpO TO fpS [] ms0 A0 v0 || check_sys_agree {cm} fpO TO fpS TS ms0 A0 v0; "
-    body += (f"check_types fpO TO; check_types fpS TS; check_system {cm} fpO TO ms0 A0; check_system {cm} fpS [] ms0 A0; "
-             f"check_init_vals {cm} (fp_init fpO) ms0 v0; check_init_vals {cm} (fp_init fpS) ms0 v0].\n")
-    return body
+        main = body + f"Eval vm_compute in [check_sys_agree {cm} fpO TO fpS [] ms0 A0 v0 || check_sys_agree {cm} fpO TO fpS TS ms0 A0 v0].\n"
+    diag = body + (f"Eval vm_compute in [check_types fpO TO; check_types fpS TS; check_system {cm} fpO TO ms0 A0; "
+                   f"check_system {cm} fpS [] ms0 A0; check_system {cm} fpS TS ms0 A0; "
+                   f"check_init_vals {cm} (fp_init fpO) ms0 v0; check_init_vals {cm} (fp_init fpS) ms0 v0].\n")
+    return main, diag
 
 
 # ---- evaluation helpers ----------------------------------------------------------------------
@@ -577,7 +612,7 @@ def run(ctx):
         if e.get("k1only") or (e["cand"] is not None and len(e["cand"]) == 0):
             modes = ["k1", "loop"] if e.get("k1only") else ["loop"]
         e["modes"] = modes
-        e["N"] = 3 if "deg-5" in e["name"] else (5 if "nagata" in e["name"] else N)
+        e["N"] = 3 if "deg-5" in e["name"] else (5 if "nagata" in e["name"] else oracle_depth(e["ast"], N))
         tasks.append({"kind": "synth", "text": e["text"], "cand": e["cand"], "deg": e["deg"], "modes": modes,
                       "points": e["points"], "nvals": e["N"], "timeout": 150})
     import time
@@ -651,8 +686,9 @@ def run(ctx):
                         job["why"] = flat.get("unsupported") or inst.get("f_unsupported") or inst.get("no_certificate") or "no certificate"
                         continue
                     try:
-                        files.append((f"syn_{len(pair_jobs)}", synth_case(flat, pt, inst, cm)))
-                        job["file"] = files[-1][0]
+                        main, diag = synth_case(flat, pt, inst, cm)
+                        files.append((f"syn_{len(pair_jobs)}", main))
+                        job["file"], job["diag"] = files[-1][0], diag
                     except (core.NotModelled, ValueError, KeyError) as ex:
                         job["why"] = f"not modelled: {ex}"
             for qi, pd in enumerate(ent.get("programs") or []):
@@ -694,10 +730,10 @@ def run(ctx):
                             job["why"] = f"synthesized program not modelled: {ex}"
                     if "system" in sin and "unsupported" not in flat:
                         try:
-                            files.append((f"sim_{len(loop_jobs)}",
-                                          sim_case(flat, pt, pd["dump"], subs, sin["system"], pin["Q"] if pin is not None else None,
-                                                   pin.get("k") if pin is not None else None, sv if pin is not None else None, cm)))
-                            job["file"] = files[-1][0]
+                            main, diag = sim_case(flat, pt, pd["dump"], subs, sin["system"], pin["Q"] if pin is not None else None,
+                                                  pin.get("k") if pin is not None else None, sv if pin is not None else None, cm)
+                            files.append((f"sim_{len(loop_jobs)}", main))
+                            job["file"], job["diag"] = files[-1][0], diag
                         except (core.NotModelled, ValueError, KeyError, TypeError) as ex:
                             job["why"] = f"not modelled: {ex}"
                     else:
@@ -728,6 +764,24 @@ def run(ctx):
             raise RuntimeError("oracle self-check failed (compacted vs plain semantics)")
         exact[key] = rs[0]
 
+    # validator verdicts; a second round of files explains rejections (which part failed)
+    dfiles = []
+    for job in pair_jobs + loop_jobs:
+        if job.get("file"):
+            okc, o = outs[job["file"]]
+            bl = lib.parse_bool_list(o) if okc else None
+            job["status"] = "coq-error" if bl is None or len(bl) != 1 else ("accepted" if bl[0] else "rejected")
+            job["parts"] = None
+            if bl is None:
+                job["why"] = o[-500:]
+            if job["status"] != "accepted":
+                dfiles.append(("d_" + job["file"], job["diag"]))
+    douts = lib.coq_run_many(ctx, dfiles, timeout=ctx.pick(120, 300)) if dfiles else {}
+    for job in pair_jobs + loop_jobs:
+        if job.get("file") and ("d_" + job["file"]) in douts:
+            okc, o = douts["d_" + job["file"]]
+            job["parts"] = lib.parse_bool_list(o) if okc else None
+
     # ---- decide: (Q, f) pairs -----------------------------------------------------------------
     stat, lstat = {}, {}
     for job in pair_jobs:
@@ -740,13 +794,7 @@ def run(ctx):
                  "Q": inst.get("Q_text"), "f": inst.get("f_text"), "k_polar": pair.get("k_polar")}
         ctx.count({"t": e["text"], "c": e["cand"], "d": e["deg"], "m": job["mode"], "Q": inst.get("Q_text"), "p": inst["point"]},
                   nontrivial=len(inst["Q"]) >= 2)
-        bl = None
-        if job.get("file"):
-            okc, o = outs[job["file"]]
-            bl = lib.parse_bool_list(o) if okc else None
-            job["status"] = "coq-error" if bl is None or len(bl) != 3 else ("accepted" if bl[0] else "rejected")
-            if bl is None:
-                job["why"] = o[-500:]
+        bl = job.get("parts")
         mm = None
         ex = exact.get(job["okey"]) if job["okey"] is not None else None
         if ex is not None:
@@ -789,7 +837,7 @@ def run(ctx):
         ctx.violation(f"pair-not-validated:{e['text']}:{job['mode']}:{inst['Q_text']}",
                       dict(label, validator=job["status"], validator_parts=bl, why=job["why"], certificate={k: inst.get(k) for k in ("k", "k_candidates", "R")}),
                       f"{e['name']} [{job['mode']}]: validator {job['status']} (Q, f) = ({inst['Q_text']}, {inst['f_text']}) "
-                      f"(parts [all, types, items] = {bl}) but no differing n <= {e['N']} was found", no_input=True)
+                      f"(parts [types, items] = {bl}) but no differing n <= {e['N']} was found", no_input=True)
 
     # ---- decide: synthesized loops --------------------------------------------------------------
     for job in loop_jobs:
@@ -806,13 +854,7 @@ def run(ctx):
                           f"{e['name']}: the synthesized loop has no unique fresh variable _s.. standing for Q ({pd.get('comb_vars')})\n{pd['text']}",
                           no_input=True)
             continue
-        bl = None
-        if job.get("file"):
-            okc, o = outs[job["file"]]
-            bl = lib.parse_bool_list(o) if okc else None
-            job["status"] = "coq-error" if bl is None or len(bl) != 7 else ("accepted" if bl[0] else "rejected")
-            if bl is None:
-                job["why"] = o[-500:]
+        bl = job.get("parts")
         exO = exact.get(job["okey"]) if job["okey"] is not None else None
         exS = exact.get(job["skey"]) if job["skey"] is not None else None
         mm1, mm2, random_eff = None, None, False
@@ -859,8 +901,8 @@ def run(ctx):
         else:
             ctx.violation(f"synth-loop-not-validated:{e['text']}:{pin.get('Q_text') if pin else ''}",
                           dict(label, validator=job["status"], validator_parts=bl, why=job["why"], system=sin.get("system")),
-                          f"{e['name']}: simulation validator {job['status']} the synthesized loop (parts [all, typesO, typesS, systemO, systemS, "
-                          f"initO, initS] = {bl}) but no differing first moment for n <= {e['N']} was found\n{pd['text']}", no_input=True)
+                          f"{e['name']}: simulation validator {job['status']} the synthesized loop (parts [typesO, typesS, systemO, systemS-untyped, "
+                          f"systemS-typed, initO, initS] = {bl}) but no differing first moment for n <= {e['N']} was found\n{pd['text']}", no_input=True)
             continue
         if mm2 is not None:
             # literal reading of 'the same moment sequences' for retained variables: higher moments
